@@ -24,6 +24,15 @@ import (
 
 const verifRoot = "/verif"
 
+// outRoot is where evidence/ and replays/ are written (VERIF_OUT overrides it
+// for mutation experiments on scratch copies, so real evidence is not clobbered).
+func outRoot() string {
+	if d := os.Getenv("VERIF_OUT"); d != "" {
+		return d
+	}
+	return verifRoot
+}
+
 type finding struct {
 	Property string `json:"property"`
 	Status   string `json:"status"` // "open" | "fixed"
@@ -64,6 +73,8 @@ type Ctx struct {
 	exhaustive  bool
 	inconcl     []string
 	replayOnly  string
+	child       bool
+	childViol   []shardViolation
 }
 
 func newCtx(prop, tier string, seed uint64) *Ctx {
@@ -175,6 +186,15 @@ func (c *Ctx) NumViolations() int {
 func (c *Ctx) Violate(findingKey, summary string, replay any) {
 	c.mu.Lock()
 	defer c.mu.Unlock()
+	if c.child {
+		// worker process: collect; the parent decides and writes the replay
+		c.violCount++
+		if len(c.childViol) < 40 {
+			b, _ := json.Marshal(replay)
+			c.childViol = append(c.childViol, shardViolation{findingKey, summary, b})
+		}
+		return
+	}
 	if f, ok := c.known[findingKey]; ok && findingKey != "" {
 		if _, seen := c.knownHit[findingKey]; !seen {
 			c.knownHit[findingKey] = summary
@@ -194,7 +214,7 @@ func (c *Ctx) Violate(findingKey, summary string, replay any) {
 	rp := map[string]any{"property": c.Prop, "tier": c.Tier, "seed": c.Seed, "key": findingKey, "summary": summary, "case": replay}
 	b, _ := json.MarshalIndent(rp, "", " ")
 	h := sha256.Sum256(b)
-	dir := filepath.Join(verifRoot, "replays", c.Prop)
+	dir := filepath.Join(outRoot(), "replays", c.Prop)
 	os.MkdirAll(dir, 0o755)
 	path := filepath.Join(dir, hex.EncodeToString(h[:6])+".json")
 	os.WriteFile(path, b, 0o644)
@@ -257,9 +277,9 @@ func (c *Ctx) Finish() {
 		"violations": c.violCount,
 	}
 	if c.replayOnly == "" {
-		os.MkdirAll(filepath.Join(verifRoot, "evidence"), 0o755)
+		os.MkdirAll(filepath.Join(outRoot(), "evidence"), 0o755)
 		b, _ := json.MarshalIndent(ev, "", " ")
-		if err := os.WriteFile(filepath.Join(verifRoot, "evidence", c.Prop+".json"), b, 0o644); err != nil {
+		if err := os.WriteFile(filepath.Join(outRoot(), "evidence", c.Prop+".json"), b, 0o644); err != nil {
 			fmt.Fprintf(os.Stderr, "evidence: %v\n", err)
 			os.Exit(2)
 		}
